@@ -54,11 +54,12 @@ CLAIMED["C07"] = ("verif-mgr", "DESIGN.md §3 C07",
     MGR_NOTE + " Paths without metadata are excluded from C07 runs (interface reports cannot be matched against them by design).", MGR_TECH)
 
 CLAIMED["C20"] = ("verif-mgr", "DESIGN.md §3 C20",
-    "Pre-emptive schedule search: 1-4 concurrent callers (path / cached_path, some cancelled at a drawn await point), the worker task(s) the manager spawns, a lookup service completing each lookup with ok/empty/error at a drawn point, "
+    "Pre-emptive schedule search: 1-4 concurrent callers (path / cached_path / a wait on the pair's handle that does not keep the manager alive, some cancelled at a drawn await point), the worker task(s) the manager spawns, a lookup service completing each lookup with ok/empty/error at a drawn point, "
     "and a controller (stop_managing_paths, deferred garbage collection of removed entries, idle expiry by clock advance, dropping the manager in its own actor) are interleaved by a seeded scheduler that may pre-empt every actor "
     "before/after each acquisition and release of the manager's mutexes, each load/store of the active-path slot and each operation on the managed-pair index. Oracles: at every point where no actor can run, no un-cancelled caller is blocked "
     "unless a lookup for its pair is outstanding (lost wake-up) and nobody waits for a lock (deadlock); runs consisting only of concurrent first requests start exactly one worker per pair; after the last manager handle is dropped and "
-    "lookups finish every worker actor terminates; no panic. Evidence, not proof.",
+    "lookups finish every worker actor terminates; while nothing was removed a waiter is not released with an error if every finished lookup delivered selectable paths; a waiter is not released by a removal requested before it arrived; "
+    "a worker found looping at one virtual instant (spin guard) must not leave a present or late-arriving caller blocked with no lookup outstanding; no panic. Evidence, not proof.",
     MGR_NOTE + " Pre-emption exists only at hooked points; Notify, broadcast, ArcSwap internals are atomic steps; the managed-pair index is the simulator's model of scc::HashIndex (scc itself is trusted).",
     "deterministic simulation with fault injection (baton-passing actor threads with seeded pre-emption at hooked synchronisation points, quiescence/lost-wake-up oracle, replayable choice vector, shrinking)")
 
@@ -95,7 +96,8 @@ CLAIMED["C14"] = ("verif-net", "DESIGN.md §3 C14",
     "(modulo the fields routers rewrite in flight); an echo request is answered exactly once with identical identifier/sequence/data, addressed back to the requester and delivered there; SCMP errors and malformed SCMP never trigger any packet; at most two packets per injection; the exchange terminates; datagram delivery is exactly-once. "
     "A third of the runs exercise the endhost side instead: the real PathUnawareUdpScionSocket::recv_from loop with the stack's ScmpErrorHandler (and optionally DefaultEchoHandler) over a simulated underlay on the simrt runtime (hook H8): datagrams and SCMP packets of every kind (all five error types, echo request/reply, traceroute, malformed, foreign protocols) "
     "arrive in drawn order, the receiving task is cancelled and restarted, the underlay wakes it spuriously, reply sending fails with WouldBlock/Closed; every datagram is returned exactly once and in order, every SCMP error reaches the registered receiver exactly once, only echo requests are answered (once). "
-    "Not covered: UdpScionSocket's path-aware wrapper around that loop, the tunnel gateway's SCMP construction. Evidence, not proof.",
+    "Fault 'reused buffer' (what the SDK's packet-buffer pools hand out): every SCMP packet built by the SDK or the simulator is encoded again by the SDK's encoder into a buffer holding drawn old bytes; the checksum must be valid and the SCMP message identical to the fresh encoding. "
+    "Not covered: UdpScionSocket's path-aware wrapper around that loop, the tunnel gateway's private SCMP builder (its encoder and buffer discipline are exercised by the reused-buffer fault). Evidence, not proof.",
     NET_NOTE, NET_TECH)
 
 NOT_APPLICABLE = {
